@@ -1,10 +1,10 @@
 """Which contracts, static scans and bounded stand-ins decide which property."""
 from __future__ import annotations
 from engine.registry import Registry
-from engine import sortmodel
-from contracts import option, sorting
+from engine import sortmodel, polymodel
+from contracts import option, sorting, align, compare
 
-_CONTRACT_MODULES = [option, sorting]
+_CONTRACT_MODULES = [option, sorting, align, compare]
 
 ALL_CONTRACTS = {}
 for _m in _CONTRACT_MODULES:
@@ -15,6 +15,7 @@ for _m in _CONTRACT_MODULES:
 def build_registry():
     reg = Registry()
     sortmodel.install(reg)
+    polymodel.install(reg)
     for c in ALL_CONTRACTS.values():
         def model(ex, args, kw, node, _c=c):
             ex.reg.used.add("contract:" + _c.name)
